@@ -41,8 +41,16 @@ def obs_descr_rejects_flip():
     return [] if (ok == {1, 3, 4} and set(bad) == {2, 5}) else [f"Obs_Descr verdicts wrong: ok={sorted(ok)} bad={sorted(bad)}"]
 
 
+def design_theorems():
+    """TLC evaluates the ASSUMEs of MC_RefineDesign (own colour sound, without it unsound)"""
+    from .common import run_tlc
+    res = run_tlc("MC_RefineDesign", cfg="MC_RefineDesign.cfg", workers=2, timeout=600)
+    tail = "\n".join(res.raw_tail)
+    return [] if (res.rc == 0 and "Error" not in tail) else ["MC_RefineDesign: " + tail[-600:]]
+
+
 def main():
-    problems = trace_edit_rejects_corruption() + obs_descr_rejects_flip()
+    problems = trace_edit_rejects_corruption() + obs_descr_rejects_flip() + design_theorems()
     for p in problems:
         print("SELFTEST FAILED:", p)
     print("selftest:", "ok" if not problems else "FAILED")
